@@ -255,6 +255,10 @@ func c12Universe() []GM {
 	add(func(g *GM) { g.Minutes = 11 })
 	add(func(g *GM) { g.Locked = true })
 	add(func(g *GM) { g.Frames[0].Args.Items[1] = ArgM{TooLarge: true} })
+	// started by the same go statement from different parents (go >= 1.21 prints the parent)
+	for _, parent := range []int{5, 7} {
+		add(func(g *GM) { c := *g.Creator; c.Parent = parent; g.Creator = &c })
+	}
 	return u
 }
 
